@@ -299,6 +299,29 @@ M('c11-realloc-zero', 'C11', 'src/containers/qvector.c',
   "    if (newmax == 0) {\n        free(vector->data);\n        vector->data = NULL;\n        vector->max = 0;\n        vector->num = 0;\n\n        vector->unlock(vector);\n        return true;\n    }\n", "",
   'M5', 'qvector_resize', 'resize(0) reaches realloc(p, 0)')
 
+# ---- C18 -------------------------------------------------------------------------------------
+M('c18-m32-rot', 'C18', 'src/utilities/qhash.c', "        h = (h << 13) | (h >> (32 - 13));", "        h = (h << 13) | (h >> (32 - 14));", 'H3-m32', 'qhashmurmur3_32', 'malformed rotate')
+M('c18-m32-const', 'C18', 'src/utilities/qhash.c', "    h *= 0x85ebca6b;", "    h *= 0x85ebca6d;", 'H3-m32', 'qhashmurmur3_32', 'finaliser constant changed')
+M('c18-m32-tail-shift', 'C18', 'src/utilities/qhash.c', "            k ^= tail[1] << 8;", "            k ^= tail[1] << 16;", 'H3-m32', 'qhashmurmur3_32', 'tail byte law broken')
+M('c18-m32-len-missing', 'C18', 'src/utilities/qhash.c', "    h ^= nbytes;\n\n    h ^= h >> 16;", "    h ^= h >> 16;", 'H3-m32', 'qhashmurmur3_32', 'length not mixed in')
+M('c18-m32-nblocks', 'C18', 'src/utilities/qhash.c', "    const int nblocks = nbytes / 4;", "    const int nblocks = (nbytes + 3) / 4;", 'H3-m32', 'qhashmurmur3_32', 'reads past the buffer / wrong framing')
+M('c18-m128-swap', 'C18', 'src/utilities/qhash.c', "        k2 *= c2;\n        k2 = (k2 << 33) | (k2 >> (64 - 33));\n        k2 *= c1;\n        h2 ^= k2;\n\n        h2 = (h2 << 31)",
+  "        k2 *= c1;\n        k2 = (k2 << 33) | (k2 >> (64 - 33));\n        k2 *= c2;\n        h2 ^= k2;\n\n        h2 = (h2 << 31)", 'H3-m128', 'qhashmurmur3_128', 'c1/c2 swapped in the second lane')
+M('c18-m128-case-break', 'C18', 'src/utilities/qhash.c', "        case 12:\n            k2 ^= (uint64_t)(tail[11]) << 24;", "        case 12:\n            k2 ^= (uint64_t)(tail[11]) << 24;\n            break;", 'H3-m128', 'qhashmurmur3_128', 'fall-through interrupted')
+M('c18-m128-fmix', 'C18', 'src/utilities/qhash.c', "    h2 ^= h2 >> 33;\n    h2 *= 0xff51afd7ed558ccdULL;", "    h2 ^= h2 >> 31;\n    h2 *= 0xff51afd7ed558ccdULL;", 'H3-m128', 'qhashmurmur3_128', 'fmix shift changed')
+M('c18-fnv1a-order', 'C18', 'src/utilities/qhash.c', "        h += (h<<1) + (h<<4) + (h<<7) + (h<<8) + (h<<24);\n#else\n        h *= 0x01000193;\n#endif\n        h ^= *dp;",
+  "        h ^= *dp;\n        h += (h<<1) + (h<<4) + (h<<7) + (h<<8) + (h<<24);\n#else\n        h *= 0x01000193;\n#endif", 'H4-fnv', 'qhashfnv1_32', 'FNV-1a order')
+M('c18-fnv-prime', 'C18', 'src/utilities/qhash.c', "(h<<1) + (h<<4) + (h<<7) + (h<<8) + (h<<24);", "(h<<1) + (h<<4) + (h<<7) + (h<<9) + (h<<24);", 'H4-fnv', 'qhashfnv1_32', 'wrong prime via shift-add')
+M('c18-fnv-nul-stop', 'C18', 'src/utilities/qhash.c', "    uint64_t h = 0xCBF29CE484222325ULL;\n\n    for (dp = (unsigned char *) data; nbytes > 0; dp++, nbytes--) {",
+  "    uint64_t h = 0xCBF29CE484222325ULL;\n\n    for (dp = (unsigned char *) data; nbytes > 0 && *dp; dp++, nbytes--) {", 'H1', 'qhashfnv1_64', 'scan stops at a zero byte')
+M('c18-md5-const', 'C18', 'src/internal/md5/md5c.c', "0x242070db); /* 3 */", "0x242070dd); /* 3 */", 'H5-md5', 'MD5Transform', 'sine constant changed')
+M('c18-md5-shift', 'C18', 'src/internal/md5/md5c.c', "#define S23 14", "#define S23 15", 'H5-md5', 'MD5Transform', 'shift amount changed')
+M('c18-md5-word', 'C18', 'src/internal/md5/md5c.c', "HH(d, a, b, c, x[8], S32, 0x8771f681); /* 34 */", "HH(d, a, b, c, x[9], S32, 0x8771f681); /* 34 */", 'H5-md5', 'MD5Transform', 'message word index changed')
+M('c18-md5-roundfn', 'C18', 'src/internal/md5/md5c.c', "#define G(x, y, z) (((x) & (z)) | ((y) & (~z)))", "#define G(x, y, z) (((x) & (z)) | ((y) & (z)))", 'H5-md5', 'MD5Transform', 'round function G changed')
+M('c18-md5-init', 'C18', 'src/internal/md5/md5c.c', "    context->state[2] = 0x98badcfe;", "    context->state[2] = 0x98badcff;", 'H5-md5', 'MD5Init', 'initial state changed')
+M('c18-hasharr-fnv-slot', 'C18', 'src/containers/qhasharr.c', "    uint32_t hash = qhashmurmur3_32(name, namesize) % tbldata->maxslots;\n\n    // check, is slot empty",
+  "    uint32_t hash = qhashfnv1_32(name, namesize) % tbldata->maxslots;\n\n    // check, is slot empty", 'H6', 'qhasharr_put_by_obj', 'put uses a different hash function than get')
+
 
 def run_selftest(prop, rep, rule_fn, config='cmake-release'):
     """Apply every mutant of `prop` to a scratch copy, run rule_fn(prog, report) on it, and
